@@ -9,6 +9,7 @@ import (
 	"time"
 
 	"github.com/honeycombio/refinery/config"
+	"gopkg.in/yaml.v3"
 )
 
 // This file contains template helper functions, which must be listed in this
@@ -427,8 +428,10 @@ func wrapForDocs(s string) string {
 func yamlf(a any) string {
 	switch v := a.(type) {
 	case string:
-		pat := regexp.MustCompile("^[a-zA-z0-9]+$")
-		if pat.MatchString(v) {
+		// only leave a string unquoted if YAML reads it back as that same string
+		// ("123", "true", "null" and the like would come back as another type)
+		pat := regexp.MustCompile("^[a-zA-Z0-9]+$")
+		if pat.MatchString(v) && _isPlainYAMLString(v) {
 			return v
 		}
 		hasSingleQuote := strings.Contains(v, "'")
@@ -451,6 +454,16 @@ func yamlf(a any) string {
 }
 
 // The functions below are internal to this file hence the leading underscore.
+
+// reports whether the unquoted text s, read as YAML, is the string s.
+func _isPlainYAMLString(s string) bool {
+	var out any
+	if err := yaml.Unmarshal([]byte(s), &out); err != nil {
+		return false
+	}
+	str, ok := out.(string)
+	return ok && str == s
+}
 
 // internal function to compare two "any" values for equivalence
 func _equivalent(a, b any) bool {
